@@ -230,8 +230,15 @@ Definition h_init : hstate := mkH td_default 1000000%N.
 (** * Decoding of operation histories *)
 Definition p_script : parser (iter_script elt) :=
   c <~ p_N ;; its <~ p_list p_N ;; pa <~ p_optnat ;; p_ret (mkScript c its pa).
-Definition p_dstep : parser drain_step :=
-  x <~ p_N ;; if (x =? 0)%N then p_ret DFront else if (x =? 1)%N then p_ret DBack else p_ret DLen.
+(** one call on the drain: next, next_back, len, nth(k), nth_back(k); the default
+    [Iterator::nth(k)] is k skipped elements followed by one [next] *)
+Definition p_dstep : parser (list drain_step) :=
+  x <~ p_N ;;
+  if (x =? 0)%N then p_ret [DFront] else if (x =? 1)%N then p_ret [DBack]
+  else if (x =? 2)%N then p_ret [DLen]
+  else if (x =? 3)%N then k <~ p_nat ;; p_ret (repeat DSkipFront k ++ [DFront])
+  else k <~ p_nat ;; p_ret (repeat DSkipBack k ++ [DBack]).
+Definition p_dsteps : parser (list drain_step) := l <~ p_list p_dstep ;; p_ret (concat l).
 Definition p_dend : parser drain_end :=
   x <~ p_N ;; if (x =? 0)%N then p_ret DropIt else p_ret ForgetIt.
 
@@ -245,10 +252,10 @@ Definition p_hop0 (code : nat) : parser hop :=
   | 5 => s <~ p_script ;; p_ret (HPushRow s)
   | 6 => i <~ p_N ;; s <~ p_script ;; p_ret (HInsertCol i s)
   | 7 => s <~ p_script ;; p_ret (HPushCol s)
-  | 8 => i <~ p_N ;; st <~ p_list p_dstep ;; f <~ p_dend ;; p_ret (HRemoveRow i st f)
-  | 9 => st <~ p_list p_dstep ;; f <~ p_dend ;; p_ret (HPopRow st f)
-  | 10 => i <~ p_N ;; st <~ p_list p_dstep ;; f <~ p_dend ;; p_ret (HRemoveCol i st f)
-  | 11 => st <~ p_list p_dstep ;; f <~ p_dend ;; p_ret (HPopCol st f)
+  | 8 => i <~ p_N ;; st <~ p_dsteps ;; f <~ p_dend ;; p_ret (HRemoveRow i st f)
+  | 9 => st <~ p_dsteps ;; f <~ p_dend ;; p_ret (HPopRow st f)
+  | 10 => i <~ p_N ;; st <~ p_dsteps ;; f <~ p_dend ;; p_ret (HRemoveCol i st f)
+  | 11 => st <~ p_dsteps ;; f <~ p_dend ;; p_ret (HPopCol st f)
   | 12 => p_ret HClear
   | 13 => p_ret HSwapDims
   | 14 => _ <~ p_N ;; _ <~ p_N ;; p_ret HCapacity
